@@ -70,28 +70,24 @@ theorem v1Resolved_keys_complete (sha : ID → Bytes) {sets : List (List Event)}
 theorem v1Resolved_perm_invariant (sha : ID → Bytes) {U : Event → Prop} (hU : EvId U) {sets sets' : List (List Event)}
     {auth auth' : List Event} (hs : ∀ s ∈ sets, ∀ x ∈ s, U x) (h : SetsEquiv sets sets') (ha : SameSet auth auth')
     (P1 : ∀ a ∈ auth, ∀ b ∈ auth, a.stateKey.isSome → keyOf a = keyOf b → b.stateKey.isSome → a = b)
-    (P2 : ∀ a ∈ auth, ∀ c ∈ (splitConflictedUnconflicted true sets).1, a.stateKey.isSome → c.stateKey.isSome →
-      keyOf a ≠ keyOf c)
     (P3 : ∀ a ∈ (splitConflictedUnconflicted true sets).1, ∀ b ∈ (splitConflictedUnconflicted true sets).1,
       a.stateKey.isSome → b.stateKey.isSome → keyOf a = keyOf b → a.depth = b.depth → sha a.eventID = sha b.eventID → a = b) :
     v1Resolved sha sets auth ~ v1Resolved sha sets' auth' := by
   obtain ⟨h1, h2⟩ := split_perm_invariant_perm hU true hs h
-  exact (v1_perm_invariant sha h1 ha P1 P2 P3).append h2
--- `hU`/`hs`: the split identifies events by ID; P1–P3: see `v1_perm_invariant`.
+  exact (v1_perm_invariant sha h1 ha P1 P3).append h2
+-- `hU`/`hs`: the split identifies events by ID; P1, P3: see `v1_perm_invariant`.
 
 theorem resolveConflictsNew_v1_perm_invariant (sha : ID → Bytes) (ver : Bytes) {row : VGen.VersionRow}
     (hv : versionRow? ver = some row) (hr : row.stateResAlgorithm = 1) {U : Event → Prop} (hU : EvId U)
     {sets sets' : List (List Event)} {auth auth' : List Event} (rejected rejected' : List ID)
     (hs : ∀ s ∈ sets, ∀ x ∈ s, U x) (h : SetsEquiv sets sets') (ha : SameSet auth auth')
     (P1 : ∀ a ∈ auth, ∀ b ∈ auth, a.stateKey.isSome → keyOf a = keyOf b → b.stateKey.isSome → a = b)
-    (P2 : ∀ a ∈ auth, ∀ c ∈ (splitConflictedUnconflicted true sets).1, a.stateKey.isSome → c.stateKey.isSome →
-      keyOf a ≠ keyOf c)
     (P3 : ∀ a ∈ (splitConflictedUnconflicted true sets).1, ∀ b ∈ (splitConflictedUnconflicted true sets).1,
       a.stateKey.isSome → b.stateKey.isSome → keyOf a = keyOf b → a.depth = b.depth → sha a.eventID = sha b.eventID → a = b) :
     ∃ l l', resolveConflictsNew sha ver sets auth rejected = some l ∧
       resolveConflictsNew sha ver sets' auth' rejected' = some l' ∧ l ~ l' :=
   ⟨_, _, resolveConflictsNew_v1 sha ver sets auth rejected hv hr, resolveConflictsNew_v1 sha ver sets' auth' rejected' hv hr,
-    (v1Resolved_perm_invariant sha hU hs h ha P1 P2 P3).map _⟩
+    (v1Resolved_perm_invariant sha hU hs h ha P1 P3).map _⟩
 
 /-- no event occurs twice in the result -/
 theorem v1Resolved_nodup (sha : ID → Bytes) (sets : List (List Event)) (auth : List Event) :
